@@ -22,6 +22,7 @@ def build(pid, system, tier, batch_seed, results, batches, triaged, known_seen, 
     faults = {}
     probes = {}
     unchecked = {}
+    calls = {}
     cache_states = set()
     order_pairs = set()
     ops = env = checked = refreads = ticks = skips = 0
@@ -33,6 +34,8 @@ def build(pid, system, tier, batch_seed, results, batches, triaged, known_seen, 
             faults[k] = faults.get(k, 0) + v
         for k, v in st.get("probes", {}).items():
             probes[k] = probes.get(k, 0) + v
+        for k, v in st.get("call_outcomes", {}).items():
+            calls[k] = calls.get(k, 0) + v
         for k, v in st.get("unchecked", {}).items():
             unchecked[k] = unchecked.get(k, 0) + v
         cache_states.update(st.get("cache_states", []))
@@ -75,6 +78,7 @@ def build(pid, system, tier, batch_seed, results, batches, triaged, known_seen, 
         "cache_states_measure": getattr(system, "STATE_MEASURE", ""),
         "access_order_pairs": len(order_pairs),
         "probes": probes,
+        "query_calls": _call_table(calls),
         "probes_at_zero": at_zero,
         "build_skips": skips,
         "corpus_replays": [
@@ -100,6 +104,18 @@ def build(pid, system, tier, batch_seed, results, batches, triaged, known_seen, 
         "wall_s": round(wall, 2),
         "violations": int(n_viol),
     }
+
+
+def _call_table(calls):
+    """{'Type.query': {'value': n, 'SomeException': m}} plus the list of query calls that never returned a value in this run"""
+    if not calls:
+        return {}
+    table = {}
+    for k, v in calls.items():
+        name, _, oc = k.rpartition("|")
+        table.setdefault(name, {})[oc] = v
+    never = sorted(n for n, d in table.items() if not d.get("value"))
+    return {"distinct": len(table), "never_returned_a_value": never, "outcomes": {n: table[n] for n in sorted(table)}}
 
 
 def _abbrev(recipe):
